@@ -813,6 +813,72 @@ func c29Unseeded() *explore.Scenario {
 	}
 }
 
+// c29SeededAndUnseeded — a list holding a pinned (seeded) randomized id AND the unseeded id of the
+// same client: they are different entries (one reproducible fingerprint, one fresh per attempt).
+// After the pinned one worked and is then refused, a Dial leads with it once, and still tries the
+// unseeded entry (a fingerprint the menu does not know) and every other id exactly once.
+func c29SeededAndUnseeded() *explore.Scenario {
+	menu := c29Menu()
+	return &explore.Scenario{
+		Name:    "seeded-and-unseeded-randomized-entries",
+		Workers: 1,
+		Run: func(x *explore.X) (r explore.Result) {
+			c29Learn()
+			if c29Gate != "" {
+				r.Violate("INFRA|c29-learn", "%s", c29Gate)
+				return
+			}
+			seedN := x.Choose("shuffle", 12)
+			pinned := menu[4] // Randomized-ALPN, seeded
+			what := fmt.Sprintf("ids=[Firefox-120 %s %s(unseeded)] shuffle-seed=%d", pinned.name, pinned.id.Client, seedN)
+			e := newRollerEnv(c29Sigs)
+			vnet.SetDial(e.dial)
+			defer vnet.SetDial(nil)
+			defer e.closeAll()
+			roller := c29Roller(menu, []int{2, 4})
+			roller.HelloIDs = append(roller.HelloIDs, tls.ClientHelloID{Client: pinned.id.Client, Version: pinned.id.Version})
+			tls.VerifRollerSeed(roller, tls.PRNGSeed{byte(seedN), 0x29, 0x66})
+			e.accept = map[string]bool{pinned.name: true}
+			if c, err := roller.Dial("tcp", "x", "a.example"); c == nil || err != nil || workingName(roller) != pinned.name {
+				r.Violate("C29|prefix|working-id-not-recorded", "%s: after a Dial that only %s can complete: conn=%v err=%v WorkingHelloID=%q", what, pinned.name, c != nil, err, workingName(roller))
+				return
+			}
+			// now nothing is accepted: the Dial must try the working id once, then every other entry once
+			e.mu.Lock()
+			e.attempts, e.accept, e.acceptUnknown = nil, map[string]bool{}, nil
+			e.dials = map[string]int{}
+			e.mu.Unlock()
+			c2, err2 := roller.Dial("tcp", "x", "example.com")
+			var order []string
+			count := map[string]int{}
+			unknown := 0
+			for _, a := range e.attempts {
+				order = append(order, a.id)
+				count[a.id]++
+				if strings.HasPrefix(a.id, "?") {
+					unknown++
+				}
+			}
+			if c2 != nil || err2 == nil {
+				r.Violate("C29|mixed|failure-not-returned", "%s: nothing accepted but Dial returned conn=%v err=%v", what, c2 != nil, err2)
+			}
+			if len(order) == 0 || order[0] != pinned.name {
+				r.Violate("C29|mixed|does-not-lead-with-working-id", "%s: attempts %v", what, order)
+			}
+			if count[pinned.name] != 1 {
+				r.Violate("C29|mixed|working-fingerprint-tried-more-than-once", "%s: %s attempted %d times: %v", what, pinned.name, count[pinned.name], order)
+			}
+			if unknown != 1 || count[menu[2].name] != 1 || len(order) != 3 {
+				r.Violate("C29|mixed|configured-entry-not-tried", "%s: attempts %v: want the working id, Firefox-120 and one fresh fingerprint of the unseeded entry, each once", what, order)
+			}
+			r.Nontrivial = true
+			r.Obs = fmt.Sprintf("attempts=%d|unknown=%d", len(order), unknown)
+			r.Class = r.Obs
+			return
+		},
+	}
+}
+
 func c29Scenarios(thorough bool) []*explore.Scenario {
 	b := 1
 	if thorough {
@@ -821,7 +887,7 @@ func c29Scenarios(thorough bool) []*explore.Scenario {
 	if os.Getenv("C29_BOUND") != "" {
 		fmt.Sscan(os.Getenv("C29_BOUND"), &b)
 	}
-	return []*explore.Scenario{c29Sequential(thorough), c29Unseeded(), c29Concurrent(b, false)}
+	return []*explore.Scenario{c29Sequential(thorough), c29Unseeded(), c29SeededAndUnseeded(), c29Concurrent(b, false)}
 }
 
 func init() {
@@ -829,7 +895,7 @@ func init() {
 		Init:          func(verifDir string) { c29Trust(verifDir) },
 		RaceScenarios: func(thorough bool) []*explore.Scenario { return []*explore.Scenario{c29Concurrent(0, true)} },
 		Run: func(c *explore.Check, thorough bool) {
-			c.Rule = "real Roller; net.DialTimeout redirected to in-memory connections to a standard-library TLS server that recognises each fingerprint and accepts a chosen subset. (1) explicit-state: the Roller's only state is WorkingHelloID, so every state {none, each configured id, an id no longer configured} — reached through the public API by a prefix Dial — x id lists {3 ids two of which share the client name, 4 ids incl. a seeded randomized one, 3 ids two of which are randomized ids differing only in their seed} x every acceptance subset x every attempt order the shuffle can produce (quick: 6 of 24 for the 4-id list) x dial failure at every position is executed, followed by one more Dial from the reached state; unseeded randomized ids (3 kinds x 6 shuffle seeds x 3 second servers): after one of their fresh fingerprints worked, WorkingHelloID carries its seed and the next Dial leads with exactly that fingerprint; (2) two concurrent Dials on one Roller under the controlled scheduler, all schedules with <= 1 (2) preemptions/free switches, x 4 acceptance sets x {no working id, one}. Oracle (reference Roller): first attempt is the working id if any, no id twice, only configured ids (plus the working one), stops at the first accepted attempt and returns that connection (complete, same id, SNI = server name on every attempt), records it; a dial error is returned at once; failure leaves WorkingHelloID alone and tries every id; concurrent: no deadlock/panic, each call explainable by the initial or the other call's working id, final WorkingHelloID is one of the successes. distinct = outcome class"
+			c.Rule = "real Roller; net.DialTimeout redirected to in-memory connections to a standard-library TLS server that recognises each fingerprint and accepts a chosen subset. (1) explicit-state: the Roller's only state is WorkingHelloID, so every state {none, each configured id, an id no longer configured} — reached through the public API by a prefix Dial — x id lists {3 ids two of which share the client name, 4 ids incl. a seeded randomized one, 3 ids two of which are randomized ids differing only in their seed} x every acceptance subset x every attempt order the shuffle can produce (quick: 6 of 24 for the 4-id list) x dial failure at every position is executed, followed by one more Dial from the reached state; unseeded randomized ids (3 kinds x 6 shuffle seeds x 3 second servers): after one of their fresh fingerprints worked, WorkingHelloID carries its seed and the next Dial leads with exactly that fingerprint; a list holding a pinned and the unseeded id of one client (12 shuffle seeds): both stay separate entries, each tried once; (2) two concurrent Dials on one Roller under the controlled scheduler, all schedules with <= 1 (2) preemptions/free switches, x 4 acceptance sets x {no working id, one}. Oracle (reference Roller): first attempt is the working id if any, no id twice, only configured ids (plus the working one), stops at the first accepted attempt and returns that connection (complete, same id, SNI = server name on every attempt), records it; a dial error is returned at once; failure leaves WorkingHelloID alone and tries every id; concurrent: no deadlock/panic, each call explainable by the initial or the other call's working id, final WorkingHelloID is one of the successes. distinct = outcome class"
 			c.Assumptions = []string{"shuffle decisions are driven by replacing the Roller's private prng with seeded ones (in-package helper); one seed per reachable attempt order", "fingerprints are recognised from the server's ClientHelloInfo (suites, extension set, groups, versions, ALPN; GREASE ignored); the menu's signatures are checked to be pairwise distinct", "trust via SSL_CERT_FILE and the real clock (certificate valid 2021-2036)"}
 			runAll(c, c29Scenarios(thorough), 0)
 			attachRacePass(c)
